@@ -40,9 +40,10 @@
 (* >= 0x80 becomes 2^64 - (256 - c), written here as the pair               *)
 (* <<"huge", 256 - c>>; IndexInTable then fails (DESIGN.md section 9 #11).  *)
 (***************************************************************************)
-EXTENDS Naturals, Integers, Sequences, TLC
+EXTENDS Naturals, Integers, Sequences, FiniteSets, TLC
 
-CONSTANTS ByteReps, MaxLen, TextReps, MaxText, IndexMode
+CONSTANTS ByteReps, MaxLen, TextReps, MaxText, IndexMode,
+          ReadMode      \* round 4: how the decoder walks its argument, see "reads" below
 
 L1 == INSTANCE Base64
 
@@ -52,8 +53,10 @@ VARIABLES mode,    \* "enc" | "dec"
           val, valb, out,
           pc,      \* "loop" | "emit" | "pad" | "done"
           idx,     \* ghost: the last table index used by decode (or <<"none">>)
-          ub       \* ghost: a left shift so far was undefined behaviour by the letter of C++14
-vars == <<mode, input, pos, val, valb, out, pc, idx, ub>>
+          ub,      \* ghost: a left shift so far was undefined behaviour by the letter of C++14
+          rd,      \* ghost (round 4): the set of 0-based indices at which the argument string has been read so far
+          scan     \* the length a pre-pass over the argument has arrived at (Len(input) when there is no pre-pass)
+vars == <<mode, input, pos, val, valb, out, pc, idx, ub, rd, scan>>
 
 StringsUpTo(A, n) == UNION {[1..k -> A] : k \in 0..n}
 
@@ -66,7 +69,9 @@ Lookup(ix) == IF ix[1] = "small" THEN Table[ix[2]] ELSE -1      \* what an out-o
 
 Init == /\ \/ mode = "enc" /\ input \in StringsUpTo(ByteReps, MaxLen) /\ valb = -6
            \/ mode = "dec" /\ input \in StringsUpTo(TextReps, MaxText) /\ valb = -8
-        /\ pos = 1 /\ val = <<0, 0>> /\ out = <<>> /\ pc = "loop" /\ idx = <<"none">> /\ ub = FALSE
+        /\ pos = 1 /\ val = <<0, 0>> /\ out = <<>> /\ idx = <<"none">> /\ ub = FALSE
+        /\ rd = {} /\ scan = Len(input)
+        /\ pc = IF mode = "dec" /\ ReadMode = "strip_trailing_pad" THEN "scan" ELSE "loop"
 
 (* 32-bit int as <<hi, lo>> *)
 Shl(v, k)      == <<(v[1] * (2 ^ k) + (v[2] \div (2 ^ (16 - k)))) % 65536, (v[2] * (2 ^ k)) % 65536>>      \* k <= 8
@@ -80,33 +85,49 @@ EncFeed == /\ mode = "enc" /\ pc = "loop" /\ pos <= Len(input)
            /\ ub' = (ub \/ ShlUB(val, 8))
            /\ valb' = valb + 8
            /\ pc' = "emit"
-           /\ UNCHANGED <<mode, input, pos, out, idx>>
+           /\ rd' = rd \cup {pos - 1}
+           /\ UNCHANGED <<mode, input, pos, out, idx, scan>>
 EncEmit == /\ mode = "enc" /\ pc = "emit" /\ valb >= 0
            /\ out' = Append(out, L1!Alphabet[Field(val, valb, 6) + 1])
            /\ valb' = valb - 6
-           /\ UNCHANGED <<mode, input, pos, val, pc, idx, ub>>
+           /\ UNCHANGED <<mode, input, pos, val, pc, idx, ub, rd, scan>>
 EncNext == /\ mode = "enc" /\ pc = "emit" /\ valb < 0
            /\ pos' = pos + 1 /\ pc' = "loop"
-           /\ UNCHANGED <<mode, input, val, valb, out, idx, ub>>
+           /\ UNCHANGED <<mode, input, val, valb, out, idx, ub, rd, scan>>
 EncTail == /\ mode = "enc" /\ pc = "loop" /\ pos > Len(input)
            /\ out' = IF valb > -6
                        THEN Append(out, L1!Alphabet[Field(Shl(val, 8), valb + 8, 6) + 1])
                        ELSE out
            /\ ub' = (ub \/ (valb > -6 /\ ShlUB(val, 8)))
            /\ pc' = "pad"
-           /\ UNCHANGED <<mode, input, pos, val, valb, idx>>
+           /\ UNCHANGED <<mode, input, pos, val, valb, idx, rd, scan>>
 EncPad  == /\ mode = "enc" /\ pc = "pad" /\ Len(out) % 4 # 0
            /\ out' = Append(out, L1!Pad)
-           /\ UNCHANGED <<mode, input, pos, val, valb, pc, idx, ub>>
+           /\ UNCHANGED <<mode, input, pos, val, valb, pc, idx, ub, rd, scan>>
 EncDone == /\ mode = "enc" /\ pc = "pad" /\ Len(out) % 4 = 0
            /\ pc' = "done"
-           /\ UNCHANGED <<mode, input, pos, val, valb, out, idx, ub>>
+           /\ UNCHANGED <<mode, input, pos, val, valb, out, idx, ub, rd, scan>>
 
 (* ---- decode *)
+(* "reads": the range-for of the code dereferences its iterator only while it differs from end(), i.e. it reads   *)
+(* input[pos - 1] (0-based) under the guard pos <= Len(input): DecFeed / EncFeed add that index to rd.             *)
+(* ReadMode = "forward" is the code.  ReadMode = "strip_trailing_pad" is a NEGATIVE CONTROL for ReadsInInput (like  *)
+(* IndexMode = "size_t_of_char" for IndexInTable): a pre-pass `len = size(); while (input[len - 1] == '=') --len;`   *)
+(* that sizes the result - with no lower bound it reads index -1 of the empty and of every all-padding text         *)
+(* (Base64Impl_strippad.cfg: ReadsInInput must FAIL there).  What a read outside the string yields is unknowable;   *)
+(* "not a padding character" is one possibility.                                                                  *)
+DecScan == /\ mode = "dec" /\ pc = "scan"
+           /\ LET i == scan - 1 IN
+              /\ rd' = rd \cup {i}
+              /\ IF i \in 0..(Len(input) - 1) /\ input[i + 1] = L1!Pad
+                   THEN scan' = scan - 1 /\ pc' = pc
+                   ELSE scan' = scan /\ pc' = "loop"
+           /\ UNCHANGED <<mode, input, pos, val, valb, out, idx, ub>>
 DecFeed == /\ mode = "dec" /\ pc = "loop" /\ pos <= Len(input)
            /\ LET ix == IndexOf(input[pos])
                   t  == Lookup(ix) IN
               /\ idx' = ix
+              /\ rd' = rd \cup {pos - 1}
               /\ IF t = -1
                    THEN pc' = "done" /\ UNCHANGED <<pos, val, valb, out, ub>>
                    ELSE LET v  == AddLow(Shl(val, 6), t)
@@ -118,12 +139,12 @@ DecFeed == /\ mode = "dec" /\ pc = "loop" /\ pos <= Len(input)
                         /\ IF vb >= 0
                              THEN out' = Append(out, Field(v, vb, 8)) /\ valb' = vb - 8
                              ELSE out' = out /\ valb' = vb
-           /\ UNCHANGED <<mode, input>>
+           /\ UNCHANGED <<mode, input, scan>>
 DecEnd  == /\ mode = "dec" /\ pc = "loop" /\ pos > Len(input)
            /\ pc' = "done"
-           /\ UNCHANGED <<mode, input, pos, val, valb, out, idx, ub>>
+           /\ UNCHANGED <<mode, input, pos, val, valb, out, idx, ub, rd, scan>>
 
-Next == EncFeed \/ EncEmit \/ EncNext \/ EncTail \/ EncPad \/ EncDone \/ DecFeed \/ DecEnd
+Next == EncFeed \/ EncEmit \/ EncNext \/ EncTail \/ EncPad \/ EncDone \/ DecScan \/ DecFeed \/ DecEnd
 Spec == Init /\ [][Next]_vars
 
 ----------------------------------------------------------------------------
@@ -141,6 +162,29 @@ Progress == pc = "loop" =>
 
 (* "never indexes outside its lookup table" *)
 IndexInTable == idx[1] # "huge"
+
+(* round 4 - "never indexes outside ... the input": every index at which the argument is read is one of its       *)
+(* characters, for EVERY input of the universe - the empty one, the all-padding ones and the ones that end in       *)
+(* padding included (InputClasses below has TLC count them).                                                       *)
+ReadsInInput == rd \subseteq 0..(Len(input) - 1)
+(* ... and the walk is the one the statement describes: at every loop head exactly the consumed prefix has been     *)
+(* read; when the decoder is done it has read the leading alphabet run and the one character that ended it, nothing *)
+(* behind it ("stops at the first other character"); the encoder has read every byte                               *)
+ReadsPrefix  == /\ pc = "loop" => rd = 0..(pos - 2)
+                /\ pc = "done" /\ mode = "dec" =>
+                      LET n == L1!AlphaRun(input) IN rd = 0..((IF n < Len(input) THEN n + 1 ELSE n) - 1)
+                /\ pc = "done" /\ mode = "enc" => rd = 0..(Len(input) - 1)
+(* the degenerate decoder arguments the read-index invariant is about; TLC must meet each class: at start-up it     *)
+(* prints how many decoder arguments of the universe fall into each (lines <<"@CLASS@", class, count>>, read by      *)
+(* checks/c13.py; a count of 0 for a class is a machinery error there)                                              *)
+InputClass(t) == IF Len(t) = 0 THEN "empty"
+                 ELSE IF \A k \in 1..Len(t) : t[k] = L1!Pad THEN "all-padding"
+                 ELSE IF t[Len(t)] = L1!Pad THEN "ends-in-padding"
+                 ELSE IF L1!AlphaRun(t) = Len(t) THEN "all-alphabet"
+                 ELSE "other"
+InputClasses == {"empty", "all-padding", "ends-in-padding", "all-alphabet", "other"}
+ASSUME \A c \in InputClasses :
+          PrintT(<<"@CLASS@", c, Cardinality({t \in StringsUpTo(TextReps, MaxText) : InputClass(t) = c})>>)
 
 (* only bits 0..13 of the accumulator are ever read (Field(val, valb, 6 or 8) with these bounds on valb), so what  *)
 (* happens to the bits that leave the int on the left never matters                                              *)
